@@ -139,7 +139,10 @@ def gen_case(rng):
                 body.append(("push", rand_operand(rng, params, local, outer)))
             elif c < 0.85 and names:
                 callee, cparams = rng.choice(names)
-                body.append(("macro", callee, [rand_operand(rng, params, local, outer) for _ in cparams]))   # pass-through parameters
+                # pass-through parameters: half of the time the bare parameter, whose call-site meaning must
+                # survive even when the argument is spelled like a local label of this macro
+                body.append(("macro", callee, [("var", rng.choice(params)) if params and rng.random() < 0.5 else rand_operand(rng, params, local, outer)
+                                               for _ in cparams]))
             else:
                 body.append(("op", rng.choice(["pc", "caller", "gas"]), None))
         rng.shuffle(body) if rng.random() < 0.3 and not local else None
@@ -162,10 +165,32 @@ def gen_case(rng):
     return prog
 
 
+def designed():
+    """pass-through arguments under a name clash: the argument keeps its call-site meaning at every level"""
+    L, J = ("label", "top"), ("op", "jumpdest", None)
+    inner = ("defi", "inner", ["t"], [("op", "push1", ("var", "t"))])
+    innerp = ("defi", "inner", ["t"], [("push", ("var", "t"))])
+    ident = ("defe", "id", ["v"], ("var", "v"))
+    tail = [("label", "o2"), J]
+    out = []
+    for inn in (inner, innerp):
+        out.append([ident, inn, ("defi", "outer", ["t"], [L, J, ("macro", "inner", [("var", "t")])]), L, J, ("macro", "outer", [("lbl", "top")])] + tail)
+        out.append([ident, inn, ("defi", "outer", ["t"], [L, J, ("macro", "inner", [G.climb([("var", "t"), "+", ("lbl", "top")])])]), L, J, ("macro", "outer", [("lbl", "top")])] + tail)
+        out.append([ident, inn, ("defi", "outer", ["t"], [L, J, ("macro", "inner", [("macro", "id", [("var", "t")])])]), L, J, ("macro", "outer", [("lbl", "top")])] + tail)
+        out.append([ident, inn, ("defi", "mid", ["u"], [L, J, ("macro", "inner", [("var", "u")])]),
+                    ("defi", "outer", ["t"], [L, J, ("macro", "mid", [("var", "t")])]), L, J, ("macro", "outer", [("lbl", "top")]), ("macro", "outer", [("lbl", "o2")])] + tail)
+        out.append([ident, inn, ("defi", "outer", ["t", "u"], [L, J, ("macro", "inner", [("var", "u")]), ("macro", "inner", [("var", "t")])]),
+                    L, J, ("macro", "outer", [("lbl", "o2"), ("lbl", "top")])] + tail)
+        # definitions after use
+        out.append([ident, L, J, ("macro", "outer", [("lbl", "top")])] + tail + [inn, ("defi", "outer", ["t"], [L, J, ("macro", "inner", [("var", "t")])])])
+    return out
+
+
 def check(run):
     rng = run.rng
-    progs = [gen_case(rng) for _ in range(1500 if run.tier == "thorough" else 220)]
-    cases = [mk_case(p, "macros") for p in progs]
+    progs = designed() + [gen_case(rng) for _ in range(1500 if run.tier == "thorough" else 220)]
+    nd = len(designed())
+    cases = [mk_case(p, "designed-pass-through" if i < nd else "macros") for i, p in enumerate(progs)]
     # the reference expansion of each program, assembled by the IMPLEMENTATION (oracle side)
     exp_reqs, exp_idx, exp_err = [], [], {}
     for i, p in enumerate(progs):
